@@ -20,10 +20,16 @@
      collect), so this only says "a cache is not a remote".  For fetch it restricts to one cache
      per remote group - hence C18_fetch_exact_partial (DESIGN: any number of groups per cache;
      the sequential form of the counts, C18_counts_seq, has no such restriction).
-   * "the group's cache holds the group's request": collect keeps one cache per remote (the
-     first prefix's).  Placements where a remote group would need objects from the cache of
-     another prefix are outside these theorems - on the real code they lose objects silently
-     (reported by the builder as a suspected genuine defect).
+   * "the group's cache holds the group's request" (hypothesis 7 of C18_push): collect keeps one
+     cache per remote (the first prefix's).  This is the exact complement of the two recorded
+     findings (known_findings.json): it says that every remote group is served by ONE cache holding
+     every object under the group's prefixes - which fails when two prefixes give one remote
+     different caches (C18:designated-object-not-pushed:remote-group-served-by-several-caches) and
+     when a directory's listing crosses a longer prefix that re-routes a listed file to another
+     cache (C18:dir-object-withheld:directory-split-across-storage-prefixes).  With the
+     precondition index.save establishes instead (each object in the cache designated for ITS
+     key) the statement is false: C18_push_refuted, witness evaluated by vm_compute, the same
+     input reproduces on the implementation (corpus case of harness/props/c18.py).
    * [p_err out = None]: push / fetch returned (no exception escaped).
 
    Deviation from DESIGN: C18_resolve is over the hand-written [getitem] (line-by-line model of
@@ -81,6 +87,20 @@ Theorem C18_push : forall e m idx w out,
     (forall o, has (sget (p_w out) r) o = true -> has (sget w r) o = true \/ In o (reachable idx)).
 Proof. exact push_spec. Qed.
 Print Assumptions C18_push.
+
+(* the full statement - with index.save's placement as the only assumption on the caches - is
+   refuted by the faithful model (recorded finding, see the header) *)
+Theorem C18_push_refuted :
+  ~ (forall e m idx w out,
+       NoDup (map fst m) ->
+       run_round e RPush m idx w = out -> p_err out = None ->
+       indep RPush (collect m idx) ->
+       (forall g, In g (collect m idx) -> wf (gin e RPush w g)) ->
+       (forall s o, e_fails e s o = false) ->
+       (forall k o c, In (k, o) (entries m idx) -> cache_of m k = Some c -> has (sget w c) o = true) ->
+       forall r o, In o (designated m idx r) -> has (sget (p_w out) r) o = true).
+Proof. exact push_refuted. Qed.
+Print Assumptions C18_push_refuted.
 
 (* whatever fails, in push or fetch: a destination keeps what it had, receives only ids its group
    requested, with the source's bytes; every other store is untouched *)
